@@ -52,6 +52,10 @@ DONE = {
   text="Frame streams built from real session transcripts are written with the real encoder, cut at generated points (also inside length prefixes), truncated and corrupted byte by byte, and decoded with the real decoder; signed entries and key pairs are compared with an independent byte-layout encoder and the suite's golden snapshots; tickets, capabilities, policies and head sets are round-tripped; random and mutated-valid byte strings are fed to ten decoder targets whose bodies contain the round-trip oracle. The thorough tier adds a coverage-guided libFuzzer campaign (cargo-fuzz) over the same target bodies.",
   note="The encoder is exercised only as the crate uses it (FramedWrite::send). libFuzzer runs are pinned only approximately by -seed/-runs; a saved artifact is converted into a JSON replay and judged by the release-build oracle.",
   technique="property testing (proptest) with round-trip / independent-encoder oracles + coverage-guided fuzzing (libFuzzer via cargo-fuzz) of the decoders"),
+ "C10": dict(level="fault_enumeration",
+  text="Scripted peers play every frame sequence of length <= 3 (thorough <= 4) over a 9-symbol alphabet (handshake for a known / unknown document, live replies of a real replica, unexpected well-formed messages, aborts, undecodable / oversized / truncated frames, close), plus generated longer ones, against the real accepting side (run + into_outcome, every accept decision) and the real initiating side over in-memory streams; and the real initiator and acceptor talk through a proxy that injects, before every frame index on either side, one of: replica closed, sync disabled, store actor stopped (with the exit-pause hook so that the next request lands in the shutdown window), stream cut inside the frame as EOF or as reset. Completion within a watchdog, absence of panics on every thread, abort frame and untouched store on decline, and mirrored counters / merged stores in fault-free runs are asserted.",
+  note="QUIC streams are replaced by tokio duplex streams; a hang must reproduce three times to be reported; functional equality is asserted only for fault-free runs.",
+  technique="exhaustive small-scope enumeration of frame scripts and fault positions + generated longer scripts (proptest), completion/no-panic/differential oracles"),
  "C05": dict(level="exploration",
   text="For generated replica states, generated queries over the full product of query options are compared, as exact sequences, with a naive filter/group/sort/skip/take executor over the store's actual contents; point lookups and the two physical access paths are cross-checked.",
   note="Latest-per-key semantics as documented on Query (author filter after grouping); ties between authors at the greatest timestamp are judged by a validity predicate or skipped and counted.",
@@ -60,7 +64,7 @@ DONE = {
 
 def main():
     ids = [json.loads(l)['id'] for l in open('/verif/properties.jsonl')]
-    hooks_commit = "78e6fa5"
+    hooks_commit = "78e6fa5"; hooks_commit2 = "b21e23e"
     checks = []
     for i in ids:
         if i not in DONE:
@@ -74,7 +78,7 @@ def main():
         hooks=dict(guard="verif-hooks (cargo feature of iroh-docs)",
             enable="the harness depends on iroh-docs { path = \"/repo\", features = [\"verif-hooks\"] }",
             baseline_off_cmd="cd /repo && (cargo nextest run --workspace --no-fail-fast --tool-config-file pb:/w/lib/nextest.toml --profile pb --test-threads 8 --offline || cargo test --workspace --no-fail-fast --offline)",
-            source_commits=[hooks_commit], add_only=True),
+            source_commits=[hooks_commit, hooks_commit2], add_only=True),
         engines=[dict(name="dv", path="/verif/harness", serves_properties=[c['property_id'] for c in checks],
             kind_free_text="Rust binary: proptest 1.11 strategies driven through TestRunner with fixed seeds, 16 worker processes, JSON replay files, reference model + differential oracles")],
         checks=checks,
